@@ -851,6 +851,9 @@ pub fn check_c10(_case: &CaseSpec, _built: &Built, t: &RunTrace, rs: &RunSpec) -
     // a call given a limit >= 1 that can never return: the limit (or a structure sized
     // by it) blocks completion, whatever else happened in the run
     if bound.is_some() && t.aborted.is_none() && matches!(rs.api.family(), Family::ForEach | Family::TryForEach) {
+        if let Some((seq, msg)) = &t.panic {
+            return Some(v(Prop::C10, "limit-blocks-completion", t.run, format!("limit {:?}: panic at seq {seq}: {msg}", rs.limit)));
+        }
         if let Some((seq, why)) = t.dead {
             return Some(v(Prop::C10, "limit-blocks-completion", t.run, format!("limit {:?}, seq {seq}: {why}", rs.limit)));
         }
